@@ -199,15 +199,15 @@ func init() {
 		"A4-version: 'every kind of modification is visible to the comparison at EXEC' is a claim over all write sites: every mutation site of database state (including replacement of the whole keyspace by a flush) has, on every path through it inside its critical section, an event that gives the key a new version id or removes it from the keyspace. A6: the version comparison and the capture at WATCH use the expiry-aware lookup. R-C09-reset: the watch set is cleared on every exit of EXEC/DISCARD.",
 		"the 'iff' across arbitrary interleavings (follows from C08's lock argument plus this rule); expiry-as-modification timing; re-WATCH of an already watched key",
 		[]string{"a helper that looks the key up and bumps its version is given the key of the object being modified (the not-found edge of that lookup is not followed)"},
-		ruleA4Version, ruleA6, ruleC09Reset)
+		ruleA4Version, ruleA6, ruleC09Reset, ruleFreshID, ruleC10WatchDB)
 	reg("C11",
 		"Structure of the block/wake protocol, decided on all paths of the current source: try → register → try again → wait; a waiter that was woken (and thereby unlinked from every queue) registers again before it waits again; registrations are disposed on every exit; waiters are woken before the database mutex is released, through a buffered channel; every function that can make a list non-empty releases the lock through the waking wrapper and records how many elements it inserted. The wake in the release wrapper dominates every return (no path skips it, e.g. when the pusher owns the exclusive lock).",
 		"FIFO fairness, exactly-once delivery across interleavings, element order — schedule properties; no model of the scheduler is built (that would be a different technique family); RENAME/COPY/RESTORE placing a list under a waited key",
-		nil, ruleC11Protocol, ruleC11Wake)
+		nil, ruleC11Protocol, ruleC11Wake, ruleC11UnlinkAll)
 	reg("C12",
 		"Structure of how a blocking wait ends: the select has exactly the three arms mailbox/timer/wake; capture is paired with releaseCapture on all paths; registration is unreachable when the command runs from EXEC; CLIENT UNBLOCK's reply depends on the unblock result; closing/killing a connection reaches the unblock of its blocked command. (R-C12-deadline) the wait timer is armed with a remaining time computed from the clock where it is armed; (R-C12-timeout-agree) all blocking commands convert their timeout argument by the same expression.",
 		"timing ('no earlier than t', 'promptly'); races between unblock, push and timer",
-		nil, ruleC12, ruleC12Deadline, ruleC12TimeoutAgree)
+		nil, ruleC12, ruleC12Deadline, ruleC12TimeoutAgree, ruleC12Mailbox)
 	reg("C13",
 		"No path of these crash/stall classes is reachable from the socket: (A7) every single-result type assertion on a value taken from a command's args agrees with what the grammar-driven parser stores for every token that reaches it, and every panic in the default arm of a key switch has a case for every producible key; (R-typed-nil) no nil typed-accessor result is dereferenced; (R-payload-agree) no payload assertion can fail for a key type; (lock-balanced, A2-reentrant) no command returns holding, or self-deadlocks on, the database mutex; (R-cmdident) handler behaviour does not depend on the client's spelling of the command.",
 		"bounds safety of indexes computed from server-side lengths or by bit arithmetic (bitMath.go, bitmapUtils.go are outside A8), explicit panic() calls guarding internal invariants, termination of loops, memory growth, reply latency",
@@ -215,7 +215,7 @@ func init() {
 	reg("C14",
 		"(R-C14-dbtable) entries of the database table are inserted only when absent and after the index range test, and are never deleted or replaced (a flush empties a database in place), so every connection that selected a database keeps seeing it; (R-C14-select) the connection's selection changes only under the validity result, and a command is bound to the database of the connection it was prepared for; (A1 modes) per-connection session state is not touched through another connection's clientState. (R-C14-enumerate) index loops over the database table cover exactly the indexes the guarded creator admits; range enumerations are complete by construction.",
 		"values returned by DBSIZE, cross-connection visibility timing",
-		nil, ruleC14DbTable, ruleC14Select, ruleC14Enumerate, ruleA1ModesFor("clientState.selectedDb", "clientState.ds", "clientState.name", "clientState.cmdQueue", "clientState.watches", "clientState.respVersion", "clientState.noEvict", "clientState.libName", "clientState.libVer", "clientState.multiInProgress"))
+		nil, ruleC14DbTable, ruleC14Select, ruleC14Enumerate, ruleC10WatchDB, ruleA1ModesFor("clientState.selectedDb", "clientState.ds", "clientState.name", "clientState.cmdQueue", "clientState.watches", "clientState.respVersion", "clientState.noEvict", "clientState.libName", "clientState.libVer", "clientState.multiInProgress"))
 	reg("C15",
 		"(R-C15-exhaustive) every RESP type that reply-producing code or the request parser can put into a value is a case of the type switches that consume it (serialize, resp3To2, toNative, String); (R-C15-closure) the down-converter produces only RESP2 kinds and recurses into children; (R-C15-downconvert) the RESP2 branch of the dispatcher applies it to every handler/hook result; (R-C15-hello) the protocol version is only set under a guard restricting it to 2 or 3 whose failing side answers an error; the version field is confined to its connection (A1). Down-conversion helpers never return their input collection (no partial-depth shortcut).",
 		"element order/nesting equality between the two encodings; boolean → 0/1 and other value-level conversions",
@@ -232,5 +232,5 @@ func init() {
 	reg("C20",
 		"Structure of start-up and shutdown: RequestTermination reaches a close request for the registered connections and WaitForTermination waits for their goroutines; no process-terminating call is reachable from the API; package-level state written at run time is instance-agnostic; the port retry loop depends on an error its callee can return. (R-C20-cancel-exits) the termination arm of a select in a goroutine loop never flows back to the select; (R-C20-term-releases) RequestTermination releases listener and cancel function on every path except the nil side of a test of that very field.",
 		"timing of Close, port release by the OS",
-		nil, ruleC20Close, ruleC20NoExit, ruleC20InstanceState, ruleC20Retry, ruleC20CancelExits, ruleC20TermPass)
+		nil, ruleC20Close, ruleC20NoExit, ruleC20InstanceState, ruleC20Retry, ruleC20CancelExits, ruleC20TermPass, ruleC20Accounted, ruleC20Callback)
 }
